@@ -77,7 +77,76 @@ def cases(tier, seed):
         out.append({'kind': 'extract', 'seed': case_seed('C12', seed, 'extract', i), 'params': {'D': 3 + i % 4, 'N': 1 + i % 3}})
     for i in range(24 if tier == 'quick' else 200):
         out.append({'kind': 'hostile', 'seed': case_seed('C12', seed, 'hostile', i), 'params': {'which': i % 6, 'D': 3 + i % 3}})
+    for i in range(24 if tier == 'quick' else 600):
+        out.append({'kind': 'nonfinite_tail', 'seed': case_seed('C12', seed, 'nonfinite_tail', i), 'params': {'D': 3 + i % 3, 'P': 1 + i % 2, 'm': 1 + i % 2, 'what': ['inf', 'nan', '-inf'][i % 3]}})
     return out
+
+
+TAIL_OPS = ['add', 'sub', 'mul', 'truediv', 'rtruediv', 'pow2', 'pow3', 'pow2.5', 'rpow', 'pow_utpm', 'imul', 'itruediv', 'exp', 'log', 'sqrt', 'sin', 'cos', 'tan', 'tanh',
+            'square', 'reciprocal', 'erf', 'expit', 'gammaln', 'sqrt*cos', 'dot', 'dot_const', 'outer', 'inv', 'solve', 'solve_const', 'det', 'logdet', 'trace', 'sum',
+            'cholesky', 'qr', 'lu', 'eigh', 'svd', 'getitem_mul', 'fft_real']
+
+
+def _nonfinite_tail(ctx, p, rng):
+    """input coefficients of order >= m are inf / nan (an overflowed or undefined higher derivative), those below are ordinary: the
+    output coefficients of order < m are what the inputs truncated to m coefficients give - finite, and the same"""
+    D, P, m, what = p['D'], p['P'], p['m'], p['what']
+    bad = {'inf': np.inf, '-inf': -np.inf, 'nan': np.nan}[what]
+    n = 3
+    def tail(a, everywhere):
+        a = a.copy()
+        if everywhere:
+            a[m:] = bad
+        else:
+            a[m:].reshape(D - m, P, -1)[:, :, 0] = bad          # one element only
+        return a
+    xv = gen.series_data(rng, D, P, (n,), 'pos', 'random', False, 0.3) + 0.5
+    yv = gen.series_data(rng, D, P, (n,), 'pos', 'random', False, 0.3) + 0.5
+    Am = gen.series_data(rng, D, P, (n, n), 'R', 'random', False, 0.3)
+    for pp in range(P):
+        Am[0, pp] = gen.sym_with_gaps(rng, n) + 4.0 * np.eye(n)          # symmetric positive definite, distinct eigenvalues
+    Am = 0.5 * (Am + np.swapaxes(Am, -1, -2))
+    Bm = gen.series_data(rng, D, P, (n, 2), 'R', 'random', False, 0.3)
+    C = np.round(rng.normal(size=(n, n)), 2) + 3.0 * np.eye(n)
+    import operator
+    ops = {
+        'add': (lambda x, y, A, B: x + y, 'v'), 'sub': (lambda x, y, A, B: x - y, 'v'), 'mul': (lambda x, y, A, B: x * y, 'v'), 'truediv': (lambda x, y, A, B: y / x, 'v'),
+        'rtruediv': (lambda x, y, A, B: 2.5 / x, 'v'), 'pow2': (lambda x, y, A, B: x ** 2, 'v'), 'pow3': (lambda x, y, A, B: x ** 3, 'v'), 'pow2.5': (lambda x, y, A, B: x ** 2.5, 'v'),
+        'rpow': (lambda x, y, A, B: 2.0 ** x, 'v'), 'pow_utpm': (lambda x, y, A, B: y ** x, 'v'),
+        'imul': (lambda x, y, A, B: operator.imul(y.copy(), x), 'v'), 'itruediv': (lambda x, y, A, B: operator.itruediv(y.copy(), x), 'v'),
+        'exp': (lambda x, y, A, B: algopy.exp(x), 'v'), 'log': (lambda x, y, A, B: algopy.log(x), 'v'), 'sqrt': (lambda x, y, A, B: algopy.sqrt(x), 'v'),
+        'sin': (lambda x, y, A, B: algopy.sin(x), 'v'), 'cos': (lambda x, y, A, B: algopy.cos(x), 'v'), 'tan': (lambda x, y, A, B: algopy.tan(x * 0.5), 'v'),
+        'tanh': (lambda x, y, A, B: algopy.tanh(x), 'v'), 'square': (lambda x, y, A, B: algopy.square(x), 'v'), 'reciprocal': (lambda x, y, A, B: algopy.reciprocal(x), 'v'),
+        'erf': (lambda x, y, A, B: algopy.special.erf(x), 'v'), 'expit': (lambda x, y, A, B: algopy.special.expit(x), 'v'), 'gammaln': (lambda x, y, A, B: algopy.special.gammaln(x + 1.0), 'v'),
+        'sqrt*cos': (lambda x, y, A, B: algopy.sqrt(x) * algopy.cos(y), 'v'), 'dot': (lambda x, y, A, B: algopy.dot(A, B), 'm'), 'dot_const': (lambda x, y, A, B: algopy.dot(C, A), 'm'),
+        'outer': (lambda x, y, A, B: algopy.outer(x, y), 'v'), 'inv': (lambda x, y, A, B: algopy.inv(A), 'm'), 'solve': (lambda x, y, A, B: algopy.solve(A, B), 'm'),
+        'solve_const': (lambda x, y, A, B: algopy.solve(C, B), 'm'), 'det': (lambda x, y, A, B: algopy.det(A), 'm'), 'logdet': (lambda x, y, A, B: algopy.logdet(A), 'm'),
+        'trace': (lambda x, y, A, B: algopy.trace(A), 'm'), 'sum': (lambda x, y, A, B: algopy.sum(x * y), 'v'), 'cholesky': (lambda x, y, A, B: algopy.cholesky(A), 'm'),
+        'qr': (lambda x, y, A, B: algopy.qr(A), 'm'), 'lu': (lambda x, y, A, B: algopy.lu(A), 'm'), 'eigh': (lambda x, y, A, B: algopy.eigh(A), 'm'), 'svd': (lambda x, y, A, B: algopy.svd(A), 'm'),
+        'getitem_mul': (lambda x, y, A, B: x[1:] * y[:-1] + A[0, 1:], 'v'), 'fft_real': (lambda x, y, A, B: algopy.real(algopy.fft.fft(x)), 'v')}
+    for name in TAIL_OPS:
+        f, kind = ops[name]
+        everywhere = bool(rng.integers(2))
+        full = [UTPM(tail(xv, everywhere)), UTPM(tail(yv, everywhere)), UTPM(tail(Am, everywhere)), UTPM(tail(Bm, everywhere))]
+        trunc = [UTPM(xv[:m].copy()), UTPM(yv[:m].copy()), UTPM(Am[:m].copy()), UTPM(Bm[:m].copy())]
+        with np.errstate(all='ignore'):
+            try:
+                want = f(*trunc)
+            except Exception:
+                ctx.skip('unsupported:nonfinite_tail:' + name); continue
+            try:
+                got = f(*full)
+            except Exception as e:
+                ctx.violation('nonfinite-tail:%s:raises' % name, {'op': name, 'D': D, 'P': P, 'first_nonfinite_order': m, 'value': what, 'error': repr(e)[:160]}); continue
+        gl = [v for v in (got if isinstance(got, (tuple, list)) else (got,)) if isinstance(v, UTPM)]
+        wl = [v for v in (want if isinstance(want, (tuple, list)) else (want,)) if isinstance(v, UTPM)]
+        ok = len(gl) == len(wl) and len(gl) > 0
+        for g, w in zip(gl, wl):
+            ok = ok and g.data.shape[1:] == w.data.shape[1:] and np.all(np.isfinite(w.data)) and bool(
+                np.all(np.abs(g.data[:m] - w.data) <= 1e-11 * (np.max(np.abs(w.data), axis=0, keepdims=True) + 1e-300)))
+        if not ok:
+            ctx.violation('nonfinite-tail:%s:low-orders' % name, {'op': name, 'D': D, 'P': P, 'first_nonfinite_order': m, 'value': what, 'in_every_element': everywhere}); continue
+        ctx.ok('nonfinite-tail:' + name, ('nonfinite_tail', name, D, P, m, what, everywhere))
 
 
 def run_case(ctx, case):
@@ -90,6 +159,12 @@ def run_case(ctx, case):
         finally:
             probe.S.suppress = False
     rng = gen.rng_of(case)
+    if case['kind'] == 'nonfinite_tail':
+        probe.S.suppress = True          # (the shadow monitors skip calls with non-finite input: this kind is its own oracle)
+        try:
+            return _nonfinite_tail(ctx, case['params'], rng)
+        finally:
+            probe.S.suppress = False
     if case['kind'] == 'hostile':
         return _hostile(ctx, case['params'], rng)
     if case['kind'] == 'highD':
